@@ -107,6 +107,22 @@ def streams(rng, tier):
             out2.append(c)
         return out2
     out.append(("random", with_mirror([J.gen_pair(rng, how=rng.choice(["left", "full"])) for _ in range(nrand)])))
+    # unique keys on both sides, every right key among the left keys, left rows before AND after the last match - under every
+    # expectation the keys meet (one_to_one included): the rows are those of many_to_many, the unmatched left rows all kept
+    strict = []
+    for _ in range(120 if tier == "quick" else 1200):
+        m = rng.randint(2, 6)
+        lk = rng.sample(range(10, 10 + 2 * m), m)
+        rk = rng.sample(lk, rng.randint(1, m - 1))
+        if rng.random() < 0.3:
+            rk = rk + [99]                                   # one right row without a partner (full join appends it)
+        c = {"how": rng.choice(["left", "left", "full"]), "expect": rng.choice(["one_to_one", "one_to_one", "many_to_one", "one_to_many", None]),
+             "L": [["k0", [["i", x] for x in lk]], ["a0", [["s", f"L{j}"] for j in range(m)]]],
+             "R": [["k0" if rng.random() < 0.5 else "r0", [["i", x] for x in rk]], ["b0", [["s", f"R{j}"] for j in range(len(rk))]]],
+             "single": rng.random() < 0.5}
+        c["lon"], c["ron"] = [["n", "k0"]], [["n", c["R"][0][0]]]
+        strict.append(c)
+    out.append(("strict", strict))
     out.append(("small", with_mirror([J.gen_pair(rng, maxrows=3, how=rng.choice(["left", "full"])) for _ in range(nsmall)])))
     un = []
     for _ in range(nun):
